@@ -11,6 +11,18 @@ import threading
 import time
 
 
+REWRITES = [1, True, 1.0, 0, False, 0.0, 'x', [1], [True]]
+
+
+def typed(x):
+    """value with its types made explicit (1, True and 1.0 are different recorded values)"""
+    if isinstance(x, dict):
+        return ('dict', sorted((k, typed(v)) for k, v in x.items()))
+    if isinstance(x, (list, tuple)):
+        return (type(x).__name__, [typed(v) for v in x])
+    return (type(x).__name__, repr(x))
+
+
 def main(seed, n):
     from playback.tape_cassettes.asynchronous.async_record_only_tape_cassette import AsyncRecordOnlyTapeCassette
     from playback.tape_cassettes.in_memory.in_memory_tape_cassette import InMemoryTapeCassette
@@ -26,7 +38,7 @@ def main(seed, n):
         for p in range(nprod):
             ops = []
             for k in range(rnd.randrange(1, 6)):
-                ops.append(rnd.choice(['set', 'set', 'meta']))
+                ops.append(rnd.choice(['set', 'set', 'meta', 'rewrite']))
             ops.append('save')
             scripts.append(ops)
         expected = {}
@@ -43,6 +55,11 @@ def main(seed, n):
                 elif op == 'meta':
                     r.add_metadata({'m%d' % i: i})
                     t.add_metadata({'m%d' % i: i})
+                elif op == 'rewrite':
+                    # one key written again and again, with values that are equal (==) but not the same: the last write wins
+                    v = REWRITES[(p + i) % len(REWRITES)]
+                    r.set_data('again', v)
+                    t.set_data('again', v)
                 else:
                     cas.save_recording(r)
                     twin.save_recording(t)
@@ -59,7 +76,7 @@ def main(seed, n):
             try:
                 a = inner.get_recording(rid)
                 b = twin.get_recording(tid)
-                if a.recording_data != b.recording_data or a.recording_metadata != b.recording_metadata:
+                if typed(a.recording_data) != typed(b.recording_data) or typed(a.recording_metadata) != typed(b.recording_metadata):
                     ok = False
             except Exception:
                 ok = False
